@@ -6,6 +6,7 @@ import IwModel.Model.XStr
 import IwModel.Model.Pool
 import IwModel.Lemmas.Avl
 import IwModel.Lemmas.HMapRef
+import IwModel.Lemmas.Arr
 /-!
 C18: containers behave as their plain reference models for every call sequence.
 
@@ -157,6 +158,155 @@ example : ((hmRun HMap.hashU32Key [.lru 2, .put 1 10, .put 2 20, .put 3 30] (HMa
   decide
 
 end HMAP
+
+/-! ## Unit list and pointer list (`iwarr.c`): reference = `List` -/
+section LISTS
+open Arr
+variable {α : Type}
+
+/-- calls of the `iwulist` API that edit the list -/
+inductive UlOp (α : Type) where
+  | push (x : α) | unshift (x : α) | pop | shift | insert (i : Nat) (x : α) | set (i : Nat) (x : α) | remove (i : Nat)
+
+/-- the plain reference: what each call does to a `List` (out-of-range calls change nothing) -/
+def ulRef : UlOp α → List α → List α
+  | .push x, w => w ++ [x]
+  | .unshift x, w => x :: w
+  | .pop, w => w.take (w.length - 1)
+  | .shift, w => w.drop 1
+  | .insert i x, w => if i ≤ w.length then w.take i ++ x :: w.drop i else w
+  | .set i x, w => if i < w.length then w.set i x else w
+  | .remove i, w => if i < w.length then w.take i ++ w.drop (i + 1) else w
+
+/-- the mechanism model; `none` = an access outside the allocation -/
+def ulStep (junk : α) (l : UList α) : UlOp α → Option (UList α)
+  | .push x => l.push junk x
+  | .unshift x => l.unshift junk x
+  | .pop => (l.pop junk).map (·.1)
+  | .shift => (l.shift junk).map (·.1)
+  | .insert i x => (l.insert junk i x).map (·.1)
+  | .set i x => (l.set i x).map (·.1)
+  | .remove i => (l.remove junk i).map (·.1)
+
+/-- one `iwulist` call: no memory access leaves the allocation (`start + num ≤ anum` is kept, growth by
+`anum + num + 1`, shrink to `max num 32` once `anum ≥ 2·num`, the gap opened by `unshift`), and the live window
+changes exactly like the reference list -/
+theorem ulist_step_refines (junk : α) (l : UList α) (wf : l.Wf) (op : UlOp α) :
+    ∃ l', ulStep junk l op = some l' ∧ l'.Wf ∧ l'.window = ulRef op l.window := by
+  have hl := UList.window_length l wf
+  cases op with
+  | push x => exact UList.push_spec junk l wf x
+  | unshift x => exact UList.unshift_spec junk l wf x
+  | pop =>
+    obtain ⟨l', ok, e, w, _, hw⟩ := UList.pop_spec junk l wf
+    exact ⟨l', by simp [ulStep, e], w, by simp [ulRef, hw, hl]⟩
+  | shift =>
+    obtain ⟨l', ok, e, w, _, hw⟩ := UList.shift_spec junk l wf
+    exact ⟨l', by simp [ulStep, e], w, by simp [ulRef, hw]⟩
+  | insert i x =>
+    obtain ⟨l', ok, e, w, _, hw⟩ := UList.insert_spec junk l wf i x
+    exact ⟨l', by simp [ulStep, e], w, by simp only [ulRef]; exact hw⟩
+  | set i x =>
+    obtain ⟨l', ok, e, w, _, hw⟩ := UList.set_spec l wf i x
+    exact ⟨l', by simp [ulStep, e], w, by simp only [ulRef]; exact hw⟩
+  | remove i =>
+    obtain ⟨l', ok, e, w, _, hw⟩ := UList.remove_spec junk l wf i
+    exact ⟨l', by simp [ulStep, e], w, by simp only [ulRef]; exact hw⟩
+
+def ulRun (junk : α) : List (UlOp α) → UList α → Option (UList α)
+  | [], l => some l
+  | op :: ops, l => (ulStep junk l op).bind (ulRun junk ops)
+
+/-- **`iwulist` = `List`, for every interleaving of edits at both ends and in the middle**, across every growth
+and shrink threshold, starting from any initial capacity: never a wild access, same contents -/
+theorem ulist_refines_list (junk : α) (initial : Nat) (ops : List (UlOp α)) :
+    ∃ l, ulRun junk ops (UList.create junk initial) = some l ∧ l.Wf ∧ l.window = ops.foldl (fun w op => ulRef op w) [] := by
+  have h0 : (UList.create junk initial).Wf := by
+    have := UList.alloc_unit_pos
+    unfold UList.create UList.Wf; simp; split <;> omega
+  have hw0 : (UList.create junk initial).window = [] := by unfold UList.create UList.window; simp
+  rw [← hw0]
+  generalize UList.create junk initial = l0 at h0
+  induction ops generalizing l0 with
+  | nil => exact ⟨l0, rfl, h0, rfl⟩
+  | cons op ops ih =>
+    obtain ⟨l1, e, w1, hw⟩ := ulist_step_refines junk l0 h0 op
+    obtain ⟨l2, e2, w2, hw2⟩ := ih l1 w1
+    exact ⟨l2, by simp [ulRun, e, e2], w2, by rw [hw2, hw]; rfl⟩
+
+/-- `iwulist_clone` (fixed offset) copies exactly the live window -/
+theorem ulist_clone_window (junk : α) (l : UList α) (wf : l.Wf) : (l.clone junk).window = l.window := by
+  have hl := UList.window_length l wf
+  unfold UList.clone
+  split
+  · rename_i h0
+    have : l.window = [] := by unfold UList.window; simp [h0]
+    rw [this]; unfold UList.create UList.window; simp
+  · unfold UList.window at hl ⊢
+    simp only [List.drop_zero]
+    rw [List.take_append_of_le_length (by omega), List.take_of_length_le (by omega)]
+
+/-- calls of the `iwlist` API that edit the list; `pop/shift/remove` hand the removed item to the caller -/
+inductive PlOp (α : Type) where
+  | push (x : α) | unshift (x : α) | pop | shift | insert (i : Nat) (x : α) | set (i : Nat) (x : α) | remove (i : Nat)
+
+def plRef : PlOp α → List α → List α
+  | .push x, w => w ++ [x]
+  | .unshift x, w => x :: w
+  | .pop, w => w.take (w.length - 1)
+  | .shift, w => w.drop 1
+  | .insert i x, w => if i ≤ w.length then w.take i ++ x :: w.drop i else w
+  | .set i x, w => if i < w.length then w.set i x else w
+  | .remove i, w => if i < w.length then w.take i ++ w.drop (i + 1) else w
+
+def plStep (junk : α) (l : PList α) : PlOp α → Option (PList α)
+  | .push x => l.push junk x
+  | .unshift x => l.unshift junk x
+  | .pop => some l.pop.1
+  | .shift => l.shift.map (·.1)
+  | .insert i x => (l.insert junk i x).map (·.1)
+  | .set i x => (l.set i x).map (·.1)
+  | .remove i => (l.remove i).map (·.1)
+
+/-- one `iwlist` call (after the fixes of `unshift`): in bounds, and the window follows the reference list,
+including the compaction that `iwlist_shift` performs when `start` reaches a multiple of 256 -/
+theorem plist_step_refines (junk : α) (l : PList α) (wf : l.Wf) (op : PlOp α) :
+    ∃ l', plStep junk l op = some l' ∧ l'.Wf ∧ l'.window = plRef op l.window := by
+  have hl := PList.window_length l wf
+  cases op with
+  | push x => exact PList.push_spec junk l wf x
+  | unshift x => exact PList.unshift_spec junk l wf x
+  | pop =>
+    obtain ⟨w, hw, _⟩ := PList.pop_spec l wf
+    exact ⟨_, rfl, w, by simp [plRef, hw, hl]⟩
+  | shift =>
+    obtain ⟨l', r, e, w, hw, _⟩ := PList.shift_spec l wf
+    exact ⟨l', by simp [plStep, e], w, by simp [plRef, hw]⟩
+  | insert i x =>
+    obtain ⟨l', ok, e, w, _, hw⟩ := PList.insert_spec junk l wf i x
+    exact ⟨l', by simp [plStep, e], w, by simp only [plRef]; exact hw⟩
+  | set i x =>
+    obtain ⟨l', ok, e, w, _, hw⟩ := PList.set_spec l wf i x
+    exact ⟨l', by simp [plStep, e], w, by simp only [plRef]; exact hw⟩
+  | remove i =>
+    obtain ⟨l', r, e, w, _, hw⟩ := PList.remove_spec l wf i
+    exact ⟨l', by simp [plStep, e], w, by simp only [plRef]; exact hw⟩
+
+/-- ownership of `iwlist` items: the item handed to the caller by `pop / shift / remove` is exactly the element
+that leaves the reference list, so every inserted item is either still in the window (freed by
+`iwlist_destroy`, which walks the window) or has been handed out exactly once -/
+theorem plist_handed_out (l : PList α) (wf : l.Wf) (i : Nat) :
+    l.pop.2 = (if l.num = 0 then none else some l.window[l.num - 1]?) ∧
+    (∃ l' r, l.shift = some (l', r) ∧ r = (if l.num = 0 then none else some l.window[0]?)) ∧
+    (∃ l' r, l.remove i = some (l', r) ∧ r = (if i < l.window.length then some l.window[i]? else none)) := by
+  refine ⟨(PList.pop_spec l wf).2.2, ?_, ?_⟩
+  · obtain ⟨l', r, e, _, _, hr⟩ := PList.shift_spec l wf; exact ⟨l', r, e, hr⟩
+  · obtain ⟨l', r, e, _, hr, _⟩ := PList.remove_spec l wf i; exact ⟨l', r, e, hr⟩
+
+example : (ulRun (0 : Nat) [.push 1, .unshift 2, .insert 1 3, .remove 0] (UList.create 0 2)).map (·.window) = some [3, 1] := by
+  decide
+
+end LISTS
 
 /-! ## AVL tree (`iwavl.c`): reference = strictly increasing list of keys -/
 section AVL
